@@ -158,6 +158,13 @@ fn execute(p: &Prog, sched_seed: u64, replay: Option<Vec<u8>>) -> Run {
         let (a, _) = crate::inspect::audit(&d, Some(&hf), map.len(), map.is_empty());
         audit_failures = a.failures;
         final_len = d.len;
+        if !audit_failures.is_empty() {
+            // a map in this state may panic in its destructor: report the audit instead
+            drop(d);
+            drop(g);
+            std::mem::forget(map);
+            return Run { events, final_len, history, prefill, audit_failures, res };
+        }
     } else {
         // threads may still be inside the map
         std::mem::forget(map);
